@@ -59,7 +59,8 @@ def check_shortest_block(run, key, qname, dname, anglefn='acos'):
             if matches('-%s' % nm, a.value) is not None or matches('%s * -1' % nm, a.value) is not None:
                 fs = facts.get(node.id, frozenset())
                 under_short = any(fc[1] and isinstance(fc[2].ast, ast.Name) and fc[2].ast.id == 'shortest' for fc in fs)
-                under_neg = any(fc[1] and matches('%s < 0' % dname, fc[2].ast) is not None for fc in fs)
+                # (at dot == 0 both arcs are equally long: `<= 0` selects a shortest arc just as well)
+                under_neg = any(fc[1] and (matches('%s < 0' % dname, fc[2].ast) is not None or matches('%s <= 0' % dname, fc[2].ast) is not None) for fc in fs)
                 if under_short and under_neg:
                     flips[nm] = node
     if 'shortest' not in f.allparams:
